@@ -87,6 +87,10 @@ CORPUS = [
     [("rule", 0, ".a .b", None), ("ext", 1, ".x .y", ".b", False, None)],
     [("rule", 0, ":not(.a)", None), ("ext", 1, ".b", ".a", False, None)],
     [("rule", 0, ":is(.a, c)", None), ("ext", 1, ".b", ".a", False, None)],
+    # X1: a chain is lost for a rule that comes after both @extend rules
+    [("ext", 1, ".b", ".a", False, None), ("ext", 2, ".c", ".b", False, None), ("rule", 0, ".a", None)],
+    # X2: two extensions meeting in one compound (incremental extension loses `.y > b.x`)
+    [("ext", 2, "b.x", ".y", False, None), ("rule", 0, ".y > a.y", None), ("ext", 1, ".x", "a", False, None)],
     # C11-S1 reaching trim: a generated selector dropped because of a wrong superselector answer
     [("rule", 0, ".t c", None), ("ext", 1, "a > b", ".t", False, None), ("ext", 2, "a > x > b", ".t", False, None)],
 ]
